@@ -597,6 +597,9 @@ impl<T: Transport + 'static> SyncEngine<T> {
                 && resume_state.as_ref().is_some_and(|s| {
                     file.is_dir || s.is_still_completed(&file.relative_path, &file.path, file.size)
                 })
+                && self
+                    .destination_still_holds(file, &destination.join(&file.relative_path))
+                    .await
             {
                 tracing::debug!("Skipping completed file: {}", file.relative_path.display());
                 continue;
@@ -1759,6 +1762,32 @@ impl<T: Transport + 'static> SyncEngine<T> {
     }
 
     /// Compare checksums of two files
+    /// Whether the destination entry of a path that the resume state lists as completed is still
+    /// what that transfer left there: a directory, or a file with the source's size and time
+    /// stamp. The state file says nothing about what happened to the destination since it was
+    /// written (it survives runs made with --resume=false, and the user may have removed the
+    /// file): a listed path was skipped even when the destination lacked it or held other
+    /// contents.
+    async fn destination_still_holds(&self, file: &scanner::FileEntry, dest_path: &Path) -> bool {
+        if file.is_dir {
+            return self
+                .transport
+                .metadata(dest_path)
+                .await
+                .is_ok_and(|m| m.is_dir());
+        }
+        match self.transport.file_info(dest_path).await {
+            Ok(info) => {
+                let apart = match file.modified.duration_since(info.modified) {
+                    Ok(d) => d,
+                    Err(e) => e.duration(),
+                };
+                info.size == file.size && apart.as_secs() <= 1
+            }
+            Err(_) => false,
+        }
+    }
+
     /// `--verify-only` with a file as the source: the destination is the file to compare it with
     fn verify_single_file(
         &self,
